@@ -1034,7 +1034,13 @@ pub fn copy_dir_all(src: &Path, dst: &Path) -> std::io::Result<()> {
         if e.file_type()?.is_dir() {
             copy_dir_all(&p, &t)?;
         } else {
-            std::fs::copy(&p, &t)?;
+            // sqlite's -wal/-shm files disappear when the last connection
+            // closes; a file that vanishes while copying is not an error
+            match std::fs::copy(&p, &t) {
+                Ok(_) => {}
+                Err(e) if e.kind() == std::io::ErrorKind::NotFound => {}
+                Err(e) => return Err(e),
+            }
         }
     }
     Ok(())
